@@ -164,7 +164,7 @@ def run(rep):
         rep.exhaustive = len(plan) == len(scns)
         rep.bounds["scenarios"] = dict(enumerated=len(scns), replayed=len(plan), max_objs=3,
                                        tables="all tables for <= 2 objects; for 3 objects every replacement subset "
-                                              "with all rules registered and every registration subset")
+                                              "with all rules registered, every table without one rule, the empty table")
     else:
         _mc(rep, 4, 3, emit=False)
         r, shapes = D.emit_shapes(tlc, 5)
@@ -266,6 +266,7 @@ META = dict(
                 "list containment, references, 1-3 files); bounded shapes (<= 3/4 objects in the TLC run, <= 5 "
                 "enumerated for replay in the thorough tier, <= 14 random); object identity by containment path; "
                 "processor tables exhaustive for <= 2/3 objects, otherwise every replacement subset with all rules "
-                "registered and every registration subset; seeded samples where the universe exceeds the budget."),
+                "registered, every table leaving out one rule, and the empty table; seeded samples where the "
+                "universe exceeds the budget."),
     technique="TLC model checking of LoaderProc.tla + TLC-enumerated scenario replay with TLC oracle + TLC trace validation",
 )
